@@ -312,12 +312,21 @@ def rule_pipeline(ctx: Ctx) -> RuleResult:
     return rr
 
 
+def _carry_over(ctx: Ctx):
+    from . import c05
+
+    r = c05.rule_carry_over(ctx)
+    r.clause = "C12.5"
+    return r
+
+
 def run(ctx: Ctx):
     return [
         rule_run_restores(ctx),
         rule_mode_pairs(ctx),
         c13.rule_wrap(ctx, "C12.3"),
         rule_pipeline(ctx),
+        _carry_over(ctx),
     ]
 
 
